@@ -396,6 +396,23 @@ def run(chk, name, cases, cfg, differs, share=False, restore_vars=True):
     chk.add_corr(name, len(cases), disagreements)
     st = chk.extra.setdefault("opt_stats", {})
     st[name] = {"cases": len(cases), "changed_by_optimize": changed, "quirk_arms_fired": fired}
+    # -- second pass: a sample of the same cases again, in reverse order, in the same process: optimize is a function of its
+    # argument, so every answer must be the one given the first time (a memo, a counter, anything that survives between calls shows)
+    if TWIN_LIMIT and len(cases) > 1:
+        step2 = max(1, len(cases) // TWIN_LIMIT)
+        rdis, rn = [], 0
+        for k in reversed(range(0, len(cases), step2)):
+            ptxt = py[k][2]
+            if ptxt.startswith(("RAISED", "UNLIFTABLE", "MUTATED")):
+                continue
+            ttxt = py_optimize_text(cases[k], {} if share else None)[2]
+            rn += 1
+            if ttxt != ptxt:
+                rdis.append({"input": S.show(cases[k]), "first_time": ptxt, "second_time": ttxt})
+        chk.add_corr(name + "/again-in-reverse-order", rn, rdis, note="optimize must answer a case the same way whatever was optimised before it")
+        chk.evaluations += rn
+        for d in rdis[:5]:
+            chk.add_failure(d["input"] + "  [optimised a second time, after the other cases of the stream]", {"what": "optimize answers differently the second time (its answer depends on earlier calls)", **d}, None)
     # -- twin pass: the same trees over the digit-string twins of their constants ("1" for 1, ...), in the same process
     # and after the numeric pass: the result must be the isomorphic tree (same text after lifting back).
     if TWIN_LIMIT:
